@@ -25,12 +25,24 @@ static void *worker(void *arg) {
   }
   return NULL;
 }
-/* c17 <threads> <calls per thread> <pool size> [control] */
+/* failing queries only: most of their error messages are formatted at run time (name or index embedded), the rest are literals */
+static void failing_query(Query *q) {
+  static const char *BAD[] = {"nope", "Unobtainium", "H2O", "Xx2O", "H2O)", "h2o", "Fe 2", "Water", "si", "Rf"};
+  memset(q, 0, sizeof *q); int r = rndint(0, 9);
+  if (r < 3) { q->kind = 2; snprintf(q->s, sizeof q->s, "%s", BAD[rndint(0, 9)]); }
+  else if (r < 5) { q->kind = 3; q->ia[0] = (int[]){-1, -7, 180, 181, 500, 99999}[rndint(0, 5)]; }
+  else if (r < 6) { q->kind = 4; q->ia[0] = (int[]){-1, 10, 11, 99, 123456}[rndint(0, 4)]; }
+  else if (r < 8) { q->kind = 7; snprintf(q->s, sizeof q->s, "%s", BAD[rndint(0, 9)]); }
+  else if (r < 9) { q->kind = 1; snprintf(q->s, sizeof q->s, "%s", BAD[rndint(3, 6)]); }
+  else { q->kind = rndint(5, 6); q->ia[0] = (int[]){0, -3, 120, 4000}[rndint(0, 3)]; snprintf(q->s, sizeof q->s, "%s", BAD[rndint(0, 1)]); }
+}
+/* c17 <threads> <calls per thread> <pool size> [control|errors] */
 int cmd_c17(int argc, char **argv) {
   int T = argc > 0 ? atoi(argv[0]) : 8; ncalls = argc > 1 ? atoi(argv[1]) : 1000; npool_q = argc > 2 ? atoi(argv[2]) : 400; control = argc > 3 && !strcmp(argv[3], "control");
   if (T > MAXT) T = MAXT;
   pool = calloc(npool_q, sizeof *pool); ref = calloc(npool_q, sizeof *ref);
-  for (int i = 0; i < npool_q; i++) { random_query(&pool[i]); ref[i] = run_query(&pool[i]); }
+  int errors_only = argc > 3 && !strcmp(argv[3], "errors");
+  for (int i = 0; i < npool_q; i++) { if (errors_only) failing_query(&pool[i]); else random_query(&pool[i]); ref[i] = run_query(&pool[i]); }
   pthread_t th[MAXT]; Work w[MAXT];
   for (int t = 0; t < T; t++) { w[t].t = t; w[t].seed = rnd64(); w[t].idx = calloc(ncalls, sizeof(int)); w[t].res = calloc(ncalls, sizeof(Result)); pthread_create(&th[t], NULL, worker, &w[t]); }
   for (int t = 0; t < T; t++) pthread_join(th[t], NULL);
